@@ -74,6 +74,20 @@ def run(chk: Check) -> None:
             ok = len(c.args) == 1 and isinstance(c.args[0], ast.Dict) and [norm(v) for v in c.args[0].values] == [vparam] and [norm(k) for k in c.args[0].keys] == ['port_name']
             chk.ob('DOM-validate-before-store', out, ok, 'the dynamic check sees the emitted value under the emitted name', node=c, kind='validates-the-value')
     typed_dynamic_leaf_checked(chk, 'DOM-validate-before-store')
+    # out('a.b.c', v) creates the undeclared sub-namespaces on the fly: they must constrain what goes below them exactly as
+    # the dynamic namespace they were created in (type, validator, dynamic-ness), else the value is validated against nothing
+    gp = prog.func('ports.PortNamespace.get_port')
+    gf = chk.ctx.facts.analyse(gp)
+    made = [c for c in calls_in_func(gp) if (norm(c.func) in ('self.__class__', 'type(self)', 'PortNamespace', 'self.create_port_namespace')) and c.keywords]
+    chk.ob('PROV-dynamic-subnamespace', gp, len(made) == 1, 'get_port(create_dynamically=True) creates the missing sub-namespace at one site', kind='creation-site')
+    if made:
+        kws = {k.arg: norm(k.value) for k in made[0].keywords if k.arg}
+        for prop_ in ('valid_type', 'validator', 'dynamic'):
+            chk.ob('PROV-dynamic-subnamespace', gp, kws.get(prop_) == f'self.{prop_}', f'the namespace created on the fly inherits {prop_} from the dynamic namespace it is created in '
+                   f'(got {kws.get(prop_)!r})', node=made[0], kind=f'inherits:{prop_}')
+        ok = all(('T', 'create_dynamically') in fs and ('T', 'self.dynamic') in {(a[0], a[1]) for a in fs if len(a) == 2} or
+                 (('T', 'create_dynamically') in fs and any(a[0] == 'T' and 'dynamic' in str(a[1]) for a in fs)) for _, fs in gf.site_facts(made[0]))
+        chk.ob('PROV-dynamic-subnamespace', gp, ok, 'a namespace is created only when asked to and only inside a dynamic namespace', node=made[0], kind='only-when-dynamic')
     # the value stored is the value given, under the name given
     final = [s for s in stores if isinstance(s.ast, ast.Assign) and norm(s.ast.value) == vparam]
     chk.ob('DOM-validate-before-store', out, len(final) == 1 and norm(final[0].ast.targets[0].slice) == 'port_name', 'the value emitted is what is stored, under the port name', kind='stores-the-value')
